@@ -349,13 +349,13 @@ def vec_iter(e, args, fr, m):
     return IterV(ref_items(e, args[0]), 0, 'val')
 
 
-@contract(r'^<(?:IntoIter|Iter|IterMut)<.*> as IntoIterator>::into_iter$|^<(?:CaptureMatches|SubCaptureMatches|Enumerate|Split)<.*> as IntoIterator>::into_iter$|'
+@contract(r'^<(?:IntoIter|Iter|IterMut)<.*> as IntoIterator>::into_iter$|^<(?!Enumerate<ReadDir>)(?:CaptureMatches|SubCaptureMatches|Enumerate|Split)<.*> as IntoIterator>::into_iter$|'
           r'^<Map<(?:Iter|IntoIter)<.*> as IntoIterator>::into_iter$')
 def iter_into_iter(e, args, fr, m):
     return args[0]
 
 
-@contract(r'^<(?:IntoIter|Iter|IterMut|Enumerate)<.*> as Iterator>::next$|^<.*(?:CaptureMatches|SubCaptureMatches)<.*> as Iterator>::next$')
+@contract(r'^<(?!Enumerate<ReadDir>)(?:IntoIter|Iter|IterMut|Enumerate)<.*> as Iterator>::next$|^<.*(?:CaptureMatches|SubCaptureMatches)<.*> as Iterator>::next$')
 def iter_next(e, args, fr, m):
     it = e.load(args[0])
     if not isinstance(it, IterV):
@@ -378,7 +378,7 @@ def iter_next(e, args, fr, m):
     return some(x)
 
 
-@contract(r'^<.* as Iterator>::enumerate$')
+@contract(r'^<(?!ReadDir).* as Iterator>::enumerate$')
 def iter_enumerate(e, args, fr, m):
     it = e.force(args[0])
     return IterV(it.items[it.pos:], 0, 'enum')
@@ -844,7 +844,9 @@ def str_to_lowercase(e, args, fr, m):
         return Str(s.v.lower())
     if isinstance(s, CaseStr):
         return Str(s.base.lower())
-    if getattr(s, 'lower_invariant', False):
+    if isinstance(s, NameStr):
+        return s.lower()
+    if getattr(s, 'lower_invariant', False) is True:
         return s
     raise Unsupported('to_lowercase of an unconstrained symbolic string')
 
@@ -854,6 +856,8 @@ def str_contains(e, args, fr, m):
     s, p = e.load(args[0]), e.load(args[1])
     if s.concrete and p.concrete:
         return p.v in s.v
+    if isinstance(s, NameStr) and p.concrete:
+        return s.contains(p.v)
     return z3.simplify(z3.Contains(s.z(), p.z()))
 
 
@@ -872,6 +876,8 @@ def str_ends_with(e, args, fr, m):
     s, p = e.load(args[0]), e.load(args[1])
     if s.concrete and p.concrete:
         return s.v.endswith(p.v)
+    if isinstance(s, NameStr) and p.concrete:
+        return s.ends_with(p.v)
     return z3.simplify(z3.SuffixOf(p.z(), s.z()))
 
 
@@ -880,6 +886,8 @@ def str_starts_with(e, args, fr, m):
     s, p = e.load(args[0]), e.load(args[1])
     if s.concrete and p.concrete:
         return s.v.startswith(p.v)
+    if isinstance(s, NameStr) and p.concrete:
+        return s.starts_with(p.v)
     return z3.simplify(z3.PrefixOf(p.z(), s.z()))
 
 
@@ -1531,3 +1539,189 @@ def string_cmp(e, args, fr, m):
     if e.branch(z3.simplify(a.z() == b.z())):
         return Adt('Ordering', 'Equal')
     return Adt('Ordering', 'Greater')
+
+
+# ------------------------------------------------------------------------------------------------ file system (symbolic world)
+class World:
+    """symbolic directory tree: dirs maps a path string to a list of entries; an entry is a dict
+    {'name': Str, 'kind': 'dir'|'file', 'path': str key, 'contents': Str|None (None = not valid UTF-8)}"""
+
+    def __init__(self):
+        self.dirs = {}
+        self.files = {}
+        self.reads = []
+        self.listed = []
+
+
+def _world(e):
+    w = e.flags.get('world')
+    if w is None:
+        raise Unsupported('file system access without a world model')
+    return w
+
+
+def _path_key(e, v):
+    v = e.load(v)
+    if isinstance(v, Adt) and v.ty in ('PathBuf', 'Path', 'OsStr'):
+        return v.fields[0]
+    if isinstance(v, Str) and v.concrete:
+        return v.v
+    raise Unsupported('path value %r' % (v,))
+
+
+@contract(r'^read_dir::<.*>$|^fs::read_dir::<.*>$')
+def fs_read_dir(e, args, fr, m):
+    w = _world(e)
+    key = _path_key(e, args[0])
+    if key not in w.dirs:
+        return err(Adt('IoError', None, (Str('No such file or directory'),)))
+    e.extra.setdefault('listed', []).append(key)
+    items = [ok(Adt('DirEntry', None, (ent['path'],))) for ent in w.dirs[key]]
+    return ok(IterV(items, 0, 'perm' if e.flags.get('symbolic_listing') else 'val', key))
+
+
+@contract(r'^<ReadDir as IntoIterator>::into_iter$|^<Enumerate<ReadDir> as IntoIterator>::into_iter$')
+def readdir_into_iter(e, args, fr, m):
+    return args[0]
+
+
+@contract(r'^<ReadDir as Iterator>::enumerate$')
+def readdir_enumerate(e, args, fr, m):
+    it = e.force(args[0])
+    return IterV(it.items, 0, 'enum_' + it.kind, it.extra)
+
+
+@contract(r'^<Enumerate<ReadDir> as Iterator>::next$|^<ReadDir as Iterator>::next$')
+def readdir_next(e, args, fr, m):
+    it = e.load(args[0])
+    enum = it.kind.startswith('enum_')
+    base = it.kind[5:] if enum else it.kind
+    if base == 'perm':
+        remaining = list(it.items)
+        if not remaining:
+            return NONE
+        k = e.decide(len(remaining), None, 'directory listing order') if len(remaining) > 1 else 0
+        x = remaining.pop(k)
+        idx = it.pos
+        e.extra.setdefault('listing', {}).setdefault(it.extra, []).append(x.fields[0].fields[0])
+        e.store(args[0], IterV(remaining, idx + 1, it.kind, it.extra))
+    else:
+        consumed = it.pos
+        if consumed >= len(it.items):
+            return NONE
+        x = it.items[consumed]
+        idx = consumed
+        e.store(args[0], IterV(it.items, consumed + 1, it.kind, it.extra))
+    return some(Tuple((Int(idx, 'usize'), x))) if enum else some(x)
+
+
+@contract(r'^DirEntry::path$')
+def direntry_path(e, args, fr, m):
+    d = e.load(args[0])
+    return Adt('PathBuf', None, (d.fields[0],))
+
+
+@contract(r'^Path::is_dir$|^PathBuf::is_dir$')
+def path_is_dir(e, args, fr, m):
+    return _path_key(e, args[0]) in _world(e).dirs
+
+
+@contract(r'^Path::as_os_str$|^PathBuf::as_os_str$|^PathBuf::as_path$')
+def path_as_os_str(e, args, fr, m):
+    return Adt('OsStr', None, (_path_key(e, args[0]),))
+
+
+@contract(r'^OsStr::to_str$|^Path::to_str$')
+def osstr_to_str(e, args, fr, m):
+    v = e.load(args[0])
+    key = v.fields[0]
+    if isinstance(key, Str):
+        return some(key)
+    w = _world(e)
+    if key in w.files and w.files[key].get('name_as_path'):
+        return some(w.files[key]['name'])
+    return some(Str(key))
+
+
+@contract(r'^Path::file_name$')
+def path_file_name(e, args, fr, m):
+    key = _path_key(e, args[0])
+    w = _world(e)
+    ent = w.files.get(key)
+    if ent is None:
+        return some(Adt('OsStr', None, (Str(key.rsplit('/', 1)[-1]),)))
+    return some(Adt('OsStr', None, (ent['name'],)))
+
+
+@contract(r'^read_to_string::<.*>$|^fs::read_to_string::<.*>$')
+def fs_read_to_string(e, args, fr, m):
+    key = _path_key(e, args[0])
+    w = _world(e)
+    e.extra.setdefault('reads', []).append(key)
+    ent = w.files.get(key)
+    if ent is None:
+        return err(Adt('IoError', None, (Str('No such file or directory (or it is a directory)'),)))
+    if ent['contents'] is None:
+        return err(Adt('IoError', None, (Str('stream did not contain valid UTF-8'),)))
+    return ok(ent['contents'])
+
+
+# ------------------------------------------------------------------------------------------------ symbolic file names
+NAME_ALPHABET = ['.', 't', 'T', 's', 'S', 'o', 'O', 'l', 'L', 'x', ' ', 'É', 'é']
+LOWER = {'T': 't', 'S': 's', 'O': 'o', 'L': 'l', 'É': 'é'}
+
+
+class NameStr(Str):
+    """file name of a fixed number of characters, each a symbolic INDEX into a small alphabet (upper/lower pairs and one
+    non-ASCII letter). Suffix / containment / case folding are expressed directly over the 4-bit indices (no string theory)."""
+    __slots__ = ('chars',)
+
+    def __init__(self, chars):
+        self.chars = chars
+        self.v = None
+
+    @staticmethod
+    def fresh(tag, n):
+        chars = [z3.BitVec('%s_c%d' % (tag, i), 4) for i in range(n)]
+        cons = [z3.ULT(c, len(NAME_ALPHABET)) for c in chars]
+        return NameStr(chars), cons
+
+    @property
+    def concrete(self):
+        return False
+
+    def z(self):
+        raise Unsupported('NameStr has no string-theory form')
+
+    @staticmethod
+    def _is(c, ch):
+        if ch not in NAME_ALPHABET:
+            return False
+        return c == z3.BitVecVal(NAME_ALPHABET.index(ch), 4)
+
+    def lower(self):
+        out = []
+        for c in self.chars:
+            t = c
+            for up, lo in LOWER.items():
+                t = z3.If(c == NAME_ALPHABET.index(up), z3.BitVecVal(NAME_ALPHABET.index(lo), 4), t)
+            out.append(t)
+        return NameStr(out)
+
+    def at(self, pos, text):
+        """the name reads `text` at character position pos"""
+        if pos < 0 or pos + len(text) > len(self.chars):
+            return False
+        return conj(None, [self._is(self.chars[pos + i], ch) for i, ch in enumerate(text)])
+
+    def ends_with(self, text):
+        return self.at(len(self.chars) - len(text), text)
+
+    def starts_with(self, text):
+        return self.at(0, text)
+
+    def contains(self, text):
+        return disj([self.at(i, text) for i in range(0, len(self.chars) - len(text) + 1)])
+
+    def render(self, model):
+        return ''.join(NAME_ALPHABET[model.eval(c, model_completion=True).as_long()] for c in self.chars)
